@@ -117,3 +117,16 @@ Export String.StringSyntax.
 Delimit Scope string_scope with string.
 Definition lit (s : String.string) : str := String.list_ascii_of_string s.
 Arguments lit s%string.
+
+(** Go's order on strings: bytewise, a proper prefix first *)
+Fixpoint str_ltb (a b : str) : bool :=
+  match a, b with
+  | _, [] => false
+  | [], _ :: _ => true
+  | x :: a', y :: b' =>
+    if Nat.ltb (nat_of_ascii x) (nat_of_ascii y) then true
+    else if Nat.ltb (nat_of_ascii y) (nat_of_ascii x) then false
+    else str_ltb a' b'
+  end.
+
+
